@@ -55,6 +55,11 @@ pub fn install() {
     });
 }
 
+/// Used by the fuzz entry: same hook as `install` (kept separate for clarity at the call site).
+pub fn install_quiet_only_if_unset() {
+    install();
+}
+
 pub fn classify(file: &str, msg: &str) -> PanicKind {
     // The harness is the root crate of its build, so its own files appear relative
     // ("src/props/c01.rs"); the elf crate is a path dependency and appears with its absolute
